@@ -29,6 +29,8 @@ Definition m_wire_is_data_ack := Wire.is_data_ack.
 Definition m_wire_is_low_entropy := Wire.is_low_entropy.
 Definition m_validate_params (mode : Z) (hm : N) (rot : Z) : option (Z * Z) :=
   match LowEntropy.validate_params mode hm rot with LowEntropy.Ok p => Some p | LowEntropy.Err _ => None end.
+Definition m_chunk_mask (init : N) (rot i : Z) : option N :=
+  match LowEntropy.chunk_mask init rot i with LowEntropy.Ok v => Some v | LowEntropy.Err _ => None end.
 Definition m_mid3 := KeyTime.mid3.
 Definition m_within_range32 := KeyTime.within_range32.
 (* uint32(now / 60): proofs/TranslatedMetadataProofs.stamp *)
@@ -54,7 +56,7 @@ Extraction "model.ml"
   xl_protocol_isDataAckProtocol xl_protocol_isValidLowEntropyRotation xl_protocol_lowBits xl_protocol_rotateLowEntropyMask
   xl_protocol_buildLowEntropyParams xl_protocol_lowEntropyEncodedPayloadLen xl_protocol_maxFragmentSize
   xl_cipher_increaseNonce m_nonce_inc
-  xl_protocol_validateLowEntropyCodecParams m_validate_params
+  xl_protocol_validateLowEntropyCodecParams m_validate_params xl_protocol_lowEntropyChunkMask m_chunk_mask
   xl_mathext_Mid_uint32 xl_mathext_WithinRange_uint32 xl_protocol_protocolType_Equals
   xl_protocol_sessionStruct_Marshal xl_protocol_sessionStruct_Unmarshal xl_protocol_dataAckStruct_Marshal
   m_mid3 m_within_range32 m_stamp m_marshal_session m_unmarshal_session m_marshal_data
